@@ -221,6 +221,16 @@ func checkC15Variable(c c15Case, lo, hi *big.Int, decl string, ci caseInfo) (cas
 			}
 		}
 	}
+	if c.InList {
+		// the same probes in ONE call: the ellipsis is expanded and the renamed copy filled by the same map
+		for n := range probes {
+			panicked, _ := try(func() { m.FillVariables(map[string]interface{}{"...[0]": 1, "v[1]": strings.Repeat("s", n)}) })
+			if want := within(n, lo, hi); want == panicked {
+				return ci, fmt.Errorf("ASCII variable %s filled in the same call that expands its list: a string of length %d should be %s but was %s", decl, n,
+					map[bool]string{true: "accepted", false: "refused"}[want], map[bool]string{true: "refused", false: "accepted"}[panicked])
+			}
+		}
+	}
 	for n := range probes {
 		var res *ast.DataMessage
 		panicked, _ := try(func() { res = base.FillVariables(map[string]interface{}{name: strings.Repeat("s", n)}) })
